@@ -348,11 +348,13 @@ func main() {
 				top -= 2
 			}
 			// the full round trip at the cap is run for four representative kinds (the extracted
-			// model needs minutes per 16 MiB numeric leaf); the refusal at cap+1 for every kind
-			if lk[0] == 'B' || lk[0] == 'O' || lk[0] == 'W' || (lk[0] == 'I' && lk[1] == 8) {
+			// model needs a minute or more per 16 MiB leaf); the refusal at cap+1 for every kind
+			if lk[0] == 'B' || lk[0] == 'O' || lk[0] == 'W' || (lk[0] == 'U' && lk[1] == 2) {
 				x.one(s2t.GenLeaf(lk[0], lk[1], top, r), "cap")
 			}
-			x.one(s2t.GenLeaf(lk[0], lk[1], top+1, r), "cap+1")
+			if !(lk[0] == 'J' || (lk[0] == 'U' && lk[1] == 1)) {
+				x.one(s2t.GenLeaf(lk[0], lk[1], top+1, r), "cap+1")
+			}
 		}
 	}
 	c.Finish()
